@@ -170,3 +170,26 @@ Definition chk_C09 (s : src) (o : tree_obs) : N :=
     end
   | _ => 100
   end.
+
+(* Domain refinements found while proving that chk_C09 accepts the model (Proofs/CombAllTop.v:
+   cex_a_in_domain_rejected, cex_b_in_domain_rejected): a file name listed twice with different
+   contents has no well-defined content, and an empty outer name is no identifier - such inputs are
+   outside the property's domain, the entry point answers 100 for them. *)
+Fixpoint files_of (m : smap) (srcs : list text) (i : N) : list (text * option text) :=
+  match srcs with
+  | [] => []
+  | x :: srcs' => (get_source m x, content_in m i) :: files_of m srcs' (i + 1)
+  end.
+
+Definition files_agree (F : list (text * option text)) : bool :=
+  forallb (fun p => forallb (fun q => implb (text_eqb (fst p) (fst q)) (content_eqv (snd p) (snd q))) F) F.
+
+Definition chk_C09_all (s : src) (o : tree_obs) : N :=
+  match s with
+  | SMapped v n m orig (Some im) remove =>
+    if negb (forallb (fun x : text => negb (is_nil x)) (sm_names m)) then 100
+    else if negb (files_agree (filter (fun p => negb (text_eqb (fst p) n)) (files_of m (sm_sources m) 0)
+                               ++ files_of im (sm_sources im) 0)) then 100
+    else chk_C09 s o
+  | _ => 100
+  end.
